@@ -143,6 +143,19 @@ REGISTRY = {
                         "lin_check is proved sound, not complete; its witness gives automatic writes the smallest admissible timestamp",
                         "values stay resident or are offloaded by the running flusher; TTL is off in these runs"],
     },
+    "C08": {
+        "title": "reads racing with flush, retirement and reuse return only genuine values",
+        "teq": [
+            {"engine": "race", "quick": {"n": 3}, "thorough": {"tier": "thorough"}, "oracle": True, "mismatch_is_failure": True, "timeout": 3400,
+             "nontrivial": lambda case, res: "pinned=0 " not in case and res == "ok",
+             "distinct_key": lambda case, res: case[:400],
+             "what": "persistent stores on 44-72 block devices (freed blocks are reused at once), cache on/off, io_uring and pwrite paths, 1-2 writers (one writer per key: inserts of 1-3 block values through both spellings, deletes, TTL-only rewrites whose bytes stay in the predecessor's extent, explicit flushes) against 2-3 readers (get, get_bytes, range_query, never-matching compare-and-swap) with random sleeps at the H5 points (before the pin, while pinned, after the release, after the retired bit, after the markers are durable). (a) the trace of pin/unpin events (H5) and device writes (H1), in one global order, is judged by the extracted monitor Model.Extent.emon: a write that overlaps an open pin is the violation; (b) oracle: every value returned is byte-for-byte a value written to that key, of a generation no older than the last update completed before the read began and not newer than the last one invoked before it ended; not-found only if absent at such a generation; StaleExtent only on keys that were rewritten; no other error"},
+        ],
+        "nontrivial_rule": "a case is one whole run (all reads + the event trace); non-trivial = at least one read was served from the device under a pin and the monitor accepted; distinct by configuration and trace prefix",
+        "assumptions": ["pin events are reported after the acquire and before the release, write events before the write is issued, so a flagged overlap is real and a real overlap can be missed only inside those few instructions",
+                        "one writer per key makes generation order equal time order, so recency is decidable",
+                        "the model covers one extent; independence of different extents is by construction (extent_state is per record)"],
+    },
     "C09": {
         "title": "I/O failures are reported, contained and never destroy durable data",
         "teq": [
